@@ -124,7 +124,26 @@ enum Item {
 }
 
 #[derive(Clone, Debug)]
-enum Pred { VPos, WNotNull, KNotA, BTrue }
+enum Pred { VPos, WNotNull, KNotA, BTrue,
+    // not BOOLEAN (D69): `v + 1` (INT or NULL), `k` (TEXT or NULL), `b AND v` (v is evaluated only on rows where b is TRUE)
+    VPlus1, KText, BAndV }
+
+impl Pred {
+    /// the truth value of WHERE on one row, from the documented meaning of a condition: BOOLEAN -> its value, NULL -> does
+    /// not hold, another type -> `None` (no truth value: the run must report an error)
+    fn truth(&self, r: &[Value]) -> Option<bool> {
+        use crate::exprs::truth;
+        match self {
+            Pred::VPos => Some(matches!(r[V], Value::Int(x) if x > 0)),
+            Pred::WNotNull => Some(r[W] != Value::Null),
+            Pred::KNotA => Some(matches!(&r[K], Value::String(s) if s != "a")),
+            Pred::BTrue => truth(&r[B]),
+            Pred::VPlus1 => truth(&match r[V] { Value::Int(x) => Value::Int(x + 1), _ => Value::Null }),
+            Pred::KText => truth(&r[K]),
+            Pred::BAndV => match truth(&r[B]) { Some(true) => truth(&r[V]), other => other },
+        }
+    }
+}
 
 /// HAVING: a boolean combination of comparisons of aggregates with INT constants
 #[derive(Clone, Debug)]
@@ -133,6 +152,8 @@ enum Having {
     And(Box<Having>, Box<Having>),
     Or(Box<Having>, Box<Having>),
     Not(Box<Having>),
+    /// a bare aggregate as a condition (`HAVING SUM(v)`): not a BOOLEAN (D69) — NULL does not hold, a value is an error
+    Bare(AggK),
 }
 
 impl Having {
@@ -142,6 +163,7 @@ impl Having {
             Having::And(l, r) => format!("({} AND {})", l.sql(), r.sql()),
             Having::Or(l, r) => format!("({} OR {})", l.sql(), r.sql()),
             Having::Not(x) => format!("(NOT {})", x.sql()),
+            Having::Bare(a) => a.sql(),
         }
     }
     fn aggs<'a>(&'a self, out: &mut Vec<&'a AggK>) {
@@ -149,18 +171,22 @@ impl Having {
             Having::Cmp(a, _, _) => out.push(a),
             Having::And(l, r) | Having::Or(l, r) => { l.aggs(out); r.aggs(out); }
             Having::Not(x) => x.aggs(out),
+            Having::Bare(a) => out.push(a),
         }
     }
-    /// the condition on one group: a comparison involving NULL does not hold
-    fn holds(&self, g: &[&Vec<Value>]) -> bool {
+    /// the condition on one group: a comparison involving NULL does not hold; `None` = an operand that is evaluated has
+    /// no truth value (neither BOOLEAN nor NULL), the run must report an error. AND / OR evaluate their right operand
+    /// exactly when the left one does not decide.
+    fn holds(&self, g: &[&Vec<Value>]) -> Option<bool> {
         match self {
-            Having::Cmp(a, op, c) => match ref_aggregate(a, g) {
+            Having::Cmp(a, op, c) => Some(match ref_aggregate(a, g) {
                 Value::Int(x) => match *op { ">" => x > *c, ">=" => x >= *c, "<" => x < *c, "<=" => x <= *c, "=" => x == *c, _ => x != *c },
                 _ => false,
-            },
-            Having::And(l, r) => l.holds(g) && r.holds(g),
-            Having::Or(l, r) => l.holds(g) || r.holds(g),
-            Having::Not(x) => !x.holds(g),
+            }),
+            Having::And(l, r) => match l.holds(g) { Some(true) => r.holds(g), other => other },
+            Having::Or(l, r) => match l.holds(g) { Some(false) => r.holds(g), other => other },
+            Having::Not(x) => x.holds(g).map(|b| !b),
+            Having::Bare(a) => crate::exprs::truth(&ref_aggregate(a, g)),
         }
     }
 }
@@ -185,7 +211,8 @@ impl TypedQuery {
         }).collect();
         let mut q = format!("SELECT {} FROM t", items.join(", "));
         if let Some(p) = &self.wher {
-            q.push_str(match p { Pred::VPos => " WHERE v > 0", Pred::WNotNull => " WHERE w IS NOT NULL", Pred::KNotA => " WHERE k != 'a'", Pred::BTrue => " WHERE b" });
+            q.push_str(match p { Pred::VPos => " WHERE v > 0", Pred::WNotNull => " WHERE w IS NOT NULL", Pred::KNotA => " WHERE k != 'a'", Pred::BTrue => " WHERE b",
+                Pred::VPlus1 => " WHERE v + 1", Pred::KText => " WHERE k", Pred::BAndV => " WHERE b AND v" });
         }
         if !self.group.is_empty() {
             q.push_str(&format!(" GROUP BY {}", self.group.iter().map(|c| COLS[*c]).collect::<Vec<_>>().join(", ")));
@@ -230,7 +257,7 @@ pub fn gen_typed_query(rng: &mut Rng) -> TypedQuery {
             items.push(Item::Agg(a, wrap));
         }
     }
-    let wher = if rng.chance(1, 3) { Some(rng.pick(&[Pred::VPos, Pred::WNotNull, Pred::KNotA, Pred::BTrue]).clone()) } else { None };
+    let wher = if rng.chance(1, 3) { Some(rng.pick(&[Pred::VPos, Pred::WNotNull, Pred::KNotA, Pred::BTrue]).clone()) } else if rng.chance(1, 12) { Some(rng.pick(&[Pred::VPlus1, Pred::KText, Pred::BAndV]).clone()) } else { None };
     let having = if rng.chance(1, 2) {
         // aggregates of the select list, or hidden ones that appear only in HAVING; the same aggregate is deliberately
         // used more than once (range conditions, alternatives), thresholds lie inside the data range
@@ -243,7 +270,13 @@ pub fn gen_typed_query(rng: &mut Rng) -> TypedQuery {
         let cmp = |rng: &mut Rng, a: &AggK| Having::Cmp(a.clone(), *rng.pick(&[">", ">=", "<", "<=", "=", "!="]), *rng.pick(&[0i64, 1, 2, 3, 5, 10]));
         let a = pick(rng);
         let b = pick(rng);
-        Some(match rng.below(8) {
+        // one HAVING in twelve has a bare aggregate as a condition or as an operand of AND / OR (aggregates that create an
+        // entry in every group, so that no group is invisible — D10 — and the condition is evaluated on every group)
+        let bare = Having::Bare(rng.pick(&[AggK::Sum(V), AggK::Max(W), AggK::Min(V), AggK::CountStar, AggK::Avg(V)]).clone());
+        Some(match if rng.chance(1, 12) { 8 + rng.below(3) } else { rng.below(8) } {
+            8 => bare,
+            9 => Having::And(Box::new(cmp(rng, &a)), Box::new(bare)),
+            10 => Having::Or(Box::new(bare), Box::new(cmp(rng, &b))),
             0 | 1 => cmp(rng, &a),
             2 => { let lo = rng.below(3) as i64; Having::And(Box::new(Having::Cmp(a.clone(), ">=", lo)), Box::new(Having::Cmp(a.clone(), "<=", lo + 1 + rng.below(3) as i64))) }
             3 => Having::And(Box::new(cmp(rng, &a)), Box::new(cmp(rng, &b))),
@@ -419,6 +452,9 @@ struct RefOut {
     d10: bool,
     /// an ARRAY_AGG whose first value in some group is NULL (finding D15)
     d15: bool,
+    /// WHERE on some admitted row, or HAVING on some group, is a value of another type than BOOLEAN (not NULL): it has no
+    /// truth value, the run must report an error (C03; finding D69) — `rows` is then meaningless
+    cond_error: bool,
 }
 
 /// does the engine create a `group_values` entry for this aggregate in a group? (used only to CLASSIFY a deviation)
@@ -431,12 +467,10 @@ fn creates_entry(a: &AggK, rows: &[&Vec<Value>]) -> bool {
 }
 
 fn reference(q: &TypedQuery, admitted: &[Vec<Value>]) -> RefOut {
+    let mut cond_error = false;
     let passing: Vec<&Vec<Value>> = admitted.iter().filter(|r| match &q.wher {
         None => true,
-        Some(Pred::VPos) => matches!(r[V], Value::Int(x) if x > 0),
-        Some(Pred::WNotNull) => r[W] != Value::Null,
-        Some(Pred::KNotA) => matches!(&r[K], Value::String(s) if s != "a"),
-        Some(Pred::BTrue) => r[B] == Value::Bool(true),
+        Some(p) => match p.truth(r) { Some(b) => b, None => { cond_error = true; false } },
     }).collect();
     let key_of = |r: &Vec<Value>| -> Vec<Value> { if q.group.is_empty() { vec![Value::Null] } else { q.group.iter().map(|c| r[*c].clone()).collect() } };
     let mut keys: Vec<Vec<Value>> = Vec::new();
@@ -445,7 +479,7 @@ fn reference(q: &TypedQuery, admitted: &[Vec<Value>]) -> RefOut {
         if !keys.iter().any(|x| cmp_key(x, &k) == Ordering::Equal) { keys.push(k); }
     }
     keys.sort_by(|a, b| cmp_key(a, b));
-    let mut out = RefOut { undecided: false, rows: Vec::new(), d10: false, d15: false };
+    let mut out = RefOut { undecided: false, rows: Vec::new(), d10: false, d15: false, cond_error };
     let mut all_aggs: Vec<&AggK> = q.items.iter().filter_map(|it| match it { Item::Agg(a, _) => Some(a), _ => None }).collect();
     if let Some(h) = &q.having { h.aggs(&mut all_aggs); }
     out.undecided = all_aggs.iter().any(|a| matches!(a, AggK::Stddev(c, _) if *c == IV));
@@ -454,7 +488,7 @@ fn reference(q: &TypedQuery, admitted: &[Vec<Value>]) -> RefOut {
         if !all_aggs.iter().any(|a| creates_entry(a, &g)) { out.d10 = true; }
         for a in &all_aggs { if let AggK::ArrayAgg(c) = a { if g[0][*c] == Value::Null { out.d15 = true; } } }
         if let Some(h) = &q.having {
-            if !h.holds(&g) { continue; }
+            match h.holds(&g) { Some(true) => {}, Some(false) => continue, None => { out.cond_error = true; continue; } }
         }
         out.rows.push(q.items.iter().map(|it| match it {
             Item::Key(i) => k[*i].clone(),
@@ -550,6 +584,12 @@ pub fn run(p: &Params) -> Run {
         run.oracle_checks += 1;
         let (outcome, nrows) = match &got {
             _ if expected.undecided => ("undecided", 0),
+            RowsOutcome::Error(_) if expected.cond_error => ("cond-err", 0),
+            RowsOutcome::Rows { rows, .. } if expected.cond_error => {
+                let class = if expected.d10 { "D10:group-without-value-entry" } else { "D69:condition-type-mismatch-not-reported" };
+                run.fail(desc.clone(), class, format!("WHERE on some row / HAVING on some group is neither BOOLEAN nor NULL: an error must be reported, but the implementation printed {:?}", rows));
+                ("ok", rows.len())
+            }
             RowsOutcome::Rows { rows, .. } => {
                 if *rows != expected.rows {
                     let class = if expected.d15 { "D15:array_agg-first-value-null" } else if expected.d10 { "D10:group-without-value-entry" } else { "aggregate-table-differs-from-reference" };
